@@ -28,7 +28,7 @@ impl Prop for C09 {
     type Case = WinCase;
     fn id(&self) -> &'static str { "C09" }
     fn expected_counters(&self) -> Vec<&'static str> { vec!["fault.shuttle_scheduled_channel_consumer", "probe.width_smaller_than_slide", "probe.width_not_multiple_of_slide", "fault.burst_same_timestamp", "fault.jump_larger_than_width"] }
-    fn budget(&self, tier: Tier) -> Budget { match tier { Tier::Quick => Budget { runs: 60_000, wall_s: 60, recheck: 40 }, Tier::Thorough => Budget { runs: 6_000_000, wall_s: 1200, recheck: 200 } } }
+    fn budget(&self, tier: Tier) -> Budget { match tier { Tier::Quick => Budget { runs: 60_000, wall_s: 60, recheck: 40 }, Tier::Thorough => Budget { runs: 6_000_000, wall_s: 1000, recheck: 200 } } }
     fn hash_seed(&self, c: &WinCase) -> u64 { c.hash_seed }
     fn gen(&self, seed: u64, _i: u64, _t: Tier) -> WinCase {
         let mut r = Rng::sub(seed, "workload"); let mut cfg = Rng::sub(seed, "swarm");
@@ -232,7 +232,7 @@ impl Prop for C10 {
     type Case = SingleCase;
     fn id(&self) -> &'static str { "C10" }
     fn expected_counters(&self) -> Vec<&'static str> { vec!["probe.raw_item_equals_fact_derived_in_previous_firing", "fault.shuttle_schedule_executed", "probe.consumer_rows_interleaved_with_pushes", "probe.rules_loaded"] }
-    fn budget(&self, tier: Tier) -> Budget { match tier { Tier::Quick => Budget { runs: 8000, wall_s: 60, recheck: 20 }, Tier::Thorough => Budget { runs: 400_000, wall_s: 1200, recheck: 60 } } }
+    fn budget(&self, tier: Tier) -> Budget { match tier { Tier::Quick => Budget { runs: 8000, wall_s: 60, recheck: 20 }, Tier::Thorough => Budget { runs: 400_000, wall_s: 1000, recheck: 60 } } }
     fn hash_seed(&self, c: &SingleCase) -> u64 { c.hash_seed }
     fn gen(&self, seed: u64, _i: u64, tier: Tier) -> SingleCase {
         let mut r = Rng::sub(seed, "workload"); let mut cfg = Rng::sub(seed, "swarm"); let mut sr = Rng::sub(seed, "schedules");
@@ -410,7 +410,7 @@ impl Prop for C11 {
     type Case = MultiCase;
     fn id(&self) -> &'static str { "C11" }
     fn expected_counters(&self) -> Vec<&'static str> { vec!["fault.shuttle_schedule_executed", "fault.coordinator_timeout_fired", "probe.consumer_rows_interleaved_with_pushes", "probe.static_block_present"] }
-    fn budget(&self, tier: Tier) -> Budget { match tier { Tier::Quick => Budget { runs: 4000, wall_s: 60, recheck: 20 }, Tier::Thorough => Budget { runs: 250_000, wall_s: 1200, recheck: 60 } } }
+    fn budget(&self, tier: Tier) -> Budget { match tier { Tier::Quick => Budget { runs: 4000, wall_s: 60, recheck: 20 }, Tier::Thorough => Budget { runs: 250_000, wall_s: 1000, recheck: 60 } } }
     fn hash_seed(&self, c: &MultiCase) -> u64 { c.hash_seed }
     fn gen(&self, seed: u64, _i: u64, tier: Tier) -> MultiCase {
         let mut r = Rng::sub(seed, "workload"); let mut cfg = Rng::sub(seed, "swarm"); let mut sr = Rng::sub(seed, "schedules");
